@@ -18,6 +18,8 @@ open Cell2v.Driver Cell2v.Loop
 
 structure St where
   started : Bool := false
+  /-- the two services with the empty run-service name exist (they outlive a `stop` of A) -/
+  anon : Bool := false
   /-- the case's event centres are in queue mode (`localUseChan`) -/
   useChan : Bool := true
 
@@ -71,6 +73,12 @@ def parseBurst (ws : List String) : Option Burst := do
 
 def b2n (b : Bool) : Nat := if b then 1 else 0
 
+/-- `key=<1..6 decimal digits>` -/
+def numKV (ws : List String) (key : String) : Option Nat :=
+  match kv ws key with
+  | some v => if v.length ≥ 1 && v.length ≤ 6 && v.toList.all Char.isDigit then v.toNat? else none
+  | none => none
+
 /-- entries per kind of one service, in the harness' fixed order; `front` = the service that owns the client sessions -/
 def counts (useChan : Bool) (b : Burst) (front : Bool) : List (String × Nat) :=
   -- local events are published by the owner when asked to (`own`) and always for a centre in direct mode
@@ -93,7 +101,28 @@ def showSvc (cs : List (String × Nat)) : String :=
 def step (s : St) (line : String) : St × String :=
   let ws := words line
   match ws with
-  | ["reset"] => ({ started := true, useChan := true }, "ok A:post=1/1/1 B:post=1/1/1")
+  | ["reset"] => ({ started := true, anon := true, useChan := true }, "ok A:post=1/1/1 B:post=1/1/1 U:post=1/1/1 V:post=1/1/1")
+  | ["anon", _, _, _, _, _] =>
+    match numKV ws "p", numKV ws "post", numKV ws "ses", numKV ws "msg", numKV ws "busy" with
+    | some p, some post, some k, some m, some busy =>
+      if !s.anon || p < 1 || p > 16 || post > 400 || k > 40 || m > 40 || busy > 1 then (s, "bad-op")
+      else
+        let sess := [("sadd", k), ("smsg", k * m), ("srem", k)]
+        (s, "ok U:" ++ showSvc ([("post", post + busy)] ++ sess) ++ " V:" ++ showSvc ([("post", post)] ++ sess))
+    | _, _, _, _, _ => (s, "bad-op")
+  | ["flood", _, _] =>
+    match kv ws "who", numKV ws "n" with
+    | some who, some n =>
+      if !s.started || !s.useChan || n < 1 || n > 1500 || (who != "foreign" && who != "owner") || (who == "owner" && n > 900)
+      then (s, "bad-op")
+      else (s, "ok A:" ++ showSvc [("post", 1), ("lev", n)] ++ " B:")
+    | _, _ => (s, "bad-op")
+  | ["selfreq", _, _] =>
+    match kv ws "how", numKV ws "n" with
+    | some how, some n =>
+      if !s.started || n < 1 || n > 200 || (how != "helper" && how != "sync") then (s, "bad-op")
+      else (s, "ok A:" ++ showSvc [("post", 1), ("req", n), ("rsp", n)] ++ " B:")
+    | _, _ => (s, "bad-op")
   | "burst" :: rest =>
     if ws.length != 19 || !s.started then (s, "bad-op")
     else match parseBurst rest with
